@@ -1,13 +1,26 @@
-"""C16 - left recursion is detected exactly (structural clauses only)."""
-from ..rules.common import rule_chain
+"""C16 - left recursion is detected exactly, and never causes unbounded recursion (structural clauses)."""
+from __future__ import annotations
+
+import ast
+
+from ..loader import AnalysisError, dotted, norm, walk_no_defs
+from ..report import RuleReport
+from ..rules.common import rule_chain, run_flags
+from ..rules.leftrec import rule_left_call_table, rule_nullable_table
 
 LEVEL = 'other'
-TECHNIQUE = 'static: cooperative-__init_subclass__ path rule over the static MRO (R-CHAIN)'
-LEVEL_TEXT = ('Decides only structural necessary conditions of C16 (class-identity premise of the left-recursion '
-              'analysis); exactness of the graph algorithm over all rule graphs is not decided statically.')
-LEVEL_NOTE = 'CPython: typing.Protocol.__init_subclass__ clears _is_protocol only if every __init_subclass__ before it in the MRO chains to super().'
-EXPLANATION = ('Static analysis of /repo sources. R-CHAIN: every __init_subclass__ in front of typing.Protocol in the '
-               'MRO of a grammar-model class calls super().__init_subclass__ on all paths (path-state execution).')
+TECHNIQUE = ('static: interpretation of the nullable methods and of the left-call analysis on stand-in model trees against '
+             'the table read off the parse primitives, guarded-marking and error-condition path rules, R-CHAIN')
+LEVEL_TEXT = ('Decides from the source: class identity of the model classes is nominal (R-CHAIN); is_nullable() of every '
+              'expression class and the left-call extraction of the analysis agree with the documented table on a complete set '
+              'of expression shapes over {call, token, optional, closure, positive closure, lookaheads, group, named, cut, void, '
+              'constant, pattern, join}; marking of rules happens only under the SCC/self-loop guards after a reset; the grammar '
+              'error is raised exactly when left-recursive rules exist and left recursion is off; the runtime guard exists. '
+              'Correctness of the SCC/leader selection over all rule graphs and bounded recursion depth are not decided.')
+LEVEL_NOTE = ('CPython: typing.Protocol.__init_subclass__ clears _is_protocol only if every __init_subclass__ before it in the MRO '
+              'chains to super(). The nullable table (DESIGN appendix C) is the oracle.')
+EXPLANATION = ('Static analysis of /repo sources, TatSu not imported. Model methods are interpreted by the whitelisted evaluator '
+               'on checker-built stand-in trees, resolving methods through the static MRO.')
 ASSUMPTIONS = [LEVEL_NOTE]
 
 
@@ -15,4 +28,120 @@ def r_chain(a, tier):
     return rule_chain(a, 'C16.R-CHAIN')
 
 
-RULES = [r_chain]
+def r1a(a, tier):
+    return rule_nullable_table(a, 'C16.R1a')
+
+
+def r1b(a, tier):
+    return rule_left_call_table(a, 'C16.R1b')
+
+
+def r2_guarded_marking(a, tier):
+    rep = RuleReport(
+        'C16.R2',
+        'in mark_left_recursion every rule is first reset (is_lrec False, is_memo from no_memo); is_lrec=True is stored only '
+        'under the guard `len(scc) > 1` (for the chosen leader) or under the self-loop guard `name in graph[name]`; is_memo=False '
+        'is stored for every member of a multi-rule SCC; the function returns the marked rules',
+        floor=4,
+    )
+    fn = a.p.func('tatsu.peg.leftrec.pegen.mark_left_recursion')
+    pm = a.resolver.parents(fn)
+
+    def guards(n):
+        out = []
+        cur = n
+        while id(cur) in pm:
+            par = pm[id(cur)]
+            if isinstance(par, ast.If):
+                in_body = any(cur is s or any(x is cur for x in ast.walk(s)) for s in par.body)
+                out.append(('' if in_body else 'not ') + norm(par.test))
+            cur = par
+        return out
+
+    stores = []
+    for n in walk_no_defs(fn.node):
+        if isinstance(n, ast.Assign) and isinstance(n.targets[0], ast.Attribute) and n.targets[0].attr in ('is_lrec', 'is_memo'):
+            stores.append((n.targets[0].attr, norm(n.value), guards(n), n))
+    resets = [s for s in stores if not s[2]]
+    marks = [s for s in stores if s[0] == 'is_lrec' and s[1] == 'True']
+    rep.add({'stores': [(s[0], s[1], s[2]) for s in stores]})
+    if not any(s[0] == 'is_lrec' and s[1] == 'False' for s in resets):
+        rep.fail(fn.qualname, 'no-reset', 'rules are not reset to is_lrec=False before marking: a re-initialised grammar keeps stale marks', fn.loc)
+    if not marks:
+        rep.fail(fn.qualname, 'no-mark', 'no store of is_lrec=True found', fn.loc)
+    for attr, val, g, n in marks:
+        ok = any('len(scc) > 1' in x for x in g) or any('in graph' in x and not x.startswith('not ') for x in g)
+        rep.add({'mark': norm(n), 'guards': g, 'guarded': ok})
+        if not ok:
+            rep.fail(fn.qualname, f'unguarded-mark:{norm(n)}', f'`{norm(n)}` is not under the multi-rule-SCC guard or the self-loop '
+                     f'guard (guards: {g}): rules on no cycle are treated as left recursive and lose memoization', f'{fn.module.relpath}:{n.lineno}')
+    memo_off = [s for s in stores if s[0] == 'is_memo' and s[1] == 'False']
+    if not any(any('len(scc) > 1' in x for x in g) for _, _, g, _ in memo_off):
+        rep.fail(fn.qualname, 'scc-memo', 'members of a multi-rule SCC are not set is_memo=False', fn.loc)
+    rets = [norm(r.value) for r in walk_no_defs(fn.node) if isinstance(r, ast.Return) and r.value is not None]
+    ok = any('is_lrec' in r for r in rets)
+    rep.add({'returns': rets, 'returns_marked_rules': ok})
+    if not ok:
+        rep.fail(fn.qualname, 'return-marked', 'mark_left_recursion does not return the rules it marked', fn.loc)
+    return rep
+
+
+def r3_error_condition(a, tier):
+    rep = RuleReport(
+        'C16.R3',
+        'Grammar._mark_left_recursion raises GrammarError iff the analysis returned left-recursive rules and '
+        'config.left_recursion is false; ParserEngine.recursive_call raises FailedLeftRecursion when left recursion is disabled; '
+        'rule_call installs the left-recursion guard before evaluating the body',
+        floor=3,
+    )
+    fn = a.p.func('tatsu.peg.base.Grammar._mark_left_recursion')
+    var = None
+    for n in walk_no_defs(fn.node):
+        if isinstance(n, ast.Assign) and isinstance(n.value, ast.Call) and dotted(n.value.func) == 'mark_left_recursion' \
+                and isinstance(n.targets[0], ast.Name):
+            var = n.targets[0].id
+            arg_ok = n.value.args and norm(n.value.args[0]) == 'self.rules'
+            if not arg_ok:
+                rep.fail(fn.qualname, 'analysis-args', 'mark_left_recursion is not run over self.rules', fn.loc)
+    ok = False
+    for n in walk_no_defs(fn.node):
+        if isinstance(n, ast.If) and any(isinstance(x, ast.Raise) and x.exc is not None and 'GrammarError' in norm(x.exc) for s in n.body for x in ast.walk(s)):
+            conj = {norm(c) for c in (n.test.values if isinstance(n.test, ast.BoolOp) and isinstance(n.test.op, ast.And) else [n.test])}
+            ok = conj == {var, 'not self.config.left_recursion'}
+            rep.add({'raise_condition': sorted(conj), 'ok': ok})
+    if not ok:
+        rep.fail(fn.qualname, 'error-condition', 'GrammarError is not raised exactly under `<left-recursive rules> and not '
+                 'self.config.left_recursion`', fn.loc)
+    rc = a.p.func('tatsu.contexts.engine.ParserEngine.recursive_call')
+    ok = False
+    for n in walk_no_defs(rc.node):
+        if isinstance(n, ast.If) and norm(n.test) == 'not self.config.left_recursion':
+            ok = any(isinstance(x, ast.Raise) and x.exc is not None and 'FailedLeftRecursion' in norm(x.exc) for s in n.body for x in ast.walk(s))
+    rep.add({'recursive_call_refuses_when_disabled': ok})
+    if not ok:
+        rep.fail(rc.qualname, 'runtime-disabled', 'recursive_call does not raise FailedLeftRecursion when left recursion is disabled', rc.loc)
+    rl = a.p.func('tatsu.contexts.engine.ParserEngine.rule_call')
+
+    def flagger(ex, f, call, state):
+        nm = dotted(call.func)
+        if f is rl and nm == 'self.set_left_recursion_guard':
+            return ('guarded',)
+        if f is rl and nm == 'self.func_call' and 'guarded' not in state:
+            return ('body_before_guard',)
+        return ()
+
+    bad = any('body_before_guard' in o.state for o in run_flags(a, rl, flagger))
+    rep.add({'guard_before_body': not bad})
+    if bad:
+        rep.fail(rl.qualname, 'no-guard', 'rule_call evaluates the rule body before installing the left-recursion guard memo: an '
+                 'undetected left-recursive rule recurses without bound', rl.loc)
+    g = a.p.func('tatsu.contexts.engine.ParserEngine.set_left_recursion_guard')
+    ok = any(isinstance(n, ast.Call) and dotted(n.func) == 'self.memoize' for n in walk_no_defs(g.node)) and any(
+        'FailedLeftRecursion' in norm(n) for n in walk_no_defs(g.node) if isinstance(n, ast.Call))
+    rep.add({'guard_memoizes_FailedLeftRecursion': ok})
+    if not ok:
+        rep.fail(g.qualname, 'guard-shape', 'the guard does not memoize a FailedLeftRecursion for the key', g.loc)
+    return rep
+
+
+RULES = [r_chain, r1a, r1b, r2_guarded_marking, r3_error_condition]
